@@ -50,32 +50,49 @@ Proof. intros. cbn. rewrite H. reflexivity. Qed.
 
 (* read_all_registers visits exactly the readable registers of the block (refs with overridden access
    included), every repeat index 0..count-1, in declaration order. *)
-Theorem C04_read_all_visits : forall all objs,
-  map (fun x => fst (fst (fst x))) (read_all_items all objs) =
+Theorem C04_read_all_visits : forall it lv all objs,
+  map fst (read_all_items it lv all objs) =
   flat_map (fun o => match method_of all o with
                      | Some m => match m_kind m with
                                  | KReg acc => if readable_acc acc then
                                      match m_rep m with
-                                     | None => [m_name m]
-                                     | Some r => map (fun i => (m_name m ++ "[" ++ show_Z (Z.of_nat i) ++ "]")%string)
-                                                     (seq 0 (Z.to_nat (r_count r)))
+                                     | None => [show_step m None]
+                                     | Some r => map (fun i => show_step m (Some (Z.of_nat i))) (seq 0 (Z.to_nat (r_count r)))
                                      end else []
                                  | _ => []
                                  end
                      | None => []
                      end) objs.
 Proof.
-  intros all objs. unfold read_all_items. induction objs as [|o t IH]; [reflexivity|].
+  intros it lv all objs. unfold read_all_items. induction objs as [|o t IH]; [reflexivity|].
   cbn [flat_map]. rewrite map_app, IH. f_equal.
   destruct (method_of all o) as [m|]; [|reflexivity].
   destruct (m_kind m); try reflexivity. destruct (readable_acc acc); [|reflexivity].
   destruct (m_rep m); [|reflexivity]. rewrite map_map. reflexivity.
 Qed.
 
-(* PARTIAL (known finding D2): the address read_all_registers REPORTS is ADDR + i*STRIDE without the
-   block's base address; it equals the bus address exactly when the block's base is 0 (the root block,
-   or nested blocks at offset 0 and index 0). *)
-Theorem C04_read_all_reports_bus_address_partial : forall it m i v,
+(* The address read_all_registers REPORTS for a register is the address used on the bus for that read.
+   Non-root block (since the repair of D2 in /repo): the callback receives
+   (self.base_address + ADDR (+|-) IDX * |STRIDE|) as AT — literally the accessor's arithmetic on the same levels. *)
+Theorem C04_read_all_reports_bus_address_nonroot : forall it l lv all objs,
+  read_all_items it (l :: lv) all objs =
+  flat_map (fun o => match method_of all o with
+                     | Some m => match m_kind m with
+                                 | KReg acc => if readable_acc acc then
+                                     let item i := (show_step m i, show_outcome_Z (gen_addr_from Debug it 0 ((l :: lv) ++ [level_of m i]))) in
+                                     match m_rep m with
+                                     | None => [item None]
+                                     | Some r => map (fun i => item (Some (Z.of_nat i))) (seq 0 (Z.to_nat (r_count r)))
+                                     end else []
+                                 | _ => []
+                                 end
+                     | None => []
+                     end) objs.
+Proof. reflexivity. Qed.
+
+(* Root block: the callback receives the constant ADDR (+|-) IDX * |STRIDE|, which is what the accessor computes
+   from base 0 whenever it does not panic. *)
+Theorem C04_read_all_reports_bus_address_root : forall it m i v,
   0 < bits it -> in_range it i = true ->
   gen_addr_from Debug it 0 [level_of m (Some i)] = Ok v ->
   v = read_all_reported (m_addr m) (m_rep m) i.
@@ -88,7 +105,9 @@ Proof.
   destruct (m_rep m); ring.
 Qed.
 
-Theorem C04_read_all_reports_bus_address_refuted :
+(* Historical (D2, repaired): the block-relative value ADDR + i*STRIDE, which non-root blocks used to report,
+   differs from the bus address as soon as the block's base is not 0. *)
+Theorem C04_relative_report_differs_from_bus_historical :
   exists it base m i v,
     gen_addr_from Debug it base [level_of m (Some i)] = Ok v /\ v <> read_all_reported (m_addr m) (m_rep m) i.
 Proof.
@@ -114,5 +133,6 @@ Print Assumptions C04_index_guard.
 Print Assumptions C04_index_guard_chain.
 Print Assumptions C04_ref_address.
 Print Assumptions C04_read_all_visits.
-Print Assumptions C04_read_all_reports_bus_address_partial.
-Print Assumptions C04_read_all_reports_bus_address_refuted.
+Print Assumptions C04_read_all_reports_bus_address_nonroot.
+Print Assumptions C04_read_all_reports_bus_address_root.
+Print Assumptions C04_relative_report_differs_from_bus_historical.
